@@ -126,6 +126,7 @@ impl<'a> G<'a> {
                 let name = match self.r.below(4) {
                     0 => (*self.r.pick(&["min", "max", "sum"])).to_string(),
                     1 if !self.reg.funcs.is_empty() => self.reg.funcs.keys().nth(self.r.usize(self.reg.funcs.len())).unwrap().clone(),
+                    2 if self.r.chance(1, 2) => (*self.r.pick(&["$fee", "@rate", "_x.y", "#n"])).to_string(),
                     _ => {
                         self.n += 1;
                         format!("f{}", self.n)
@@ -248,18 +249,27 @@ impl<'a> G<'a> {
                         self.shadows += 1;
                     }
                     1 => {
-                        // bound as a *variable*: the call must still reach the global function
-                        ctx.vars.push((name.clone(), Val::int(5)));
+                        // bound as a *variable* (scalar, list or map): the call must still reach the global function
+                        let v = match self.r.below(3) {
+                            0 => Val::int(5),
+                            1 => Val::List(vec![Val::int(10), Val::int(20), Val::int(30)]),
+                            _ => Val::Map(vec![(Val::int(1), Val::s("one")), (Val::s("k"), Val::int(2))]),
+                        };
+                        ctx.vars.push((name.clone(), v));
                         self.shadows += 1;
                     }
                     _ => {}
                 }
-                let args = if ["min", "max", "sum", "mul"].contains(&name.as_str()) || self.r.chance(1, 2) {
-                    vec![lit_i(self.r.range(1, 9)), lit_i(self.r.range(1, 9))]
-                } else {
-                    vec![]
+                let args = match self.r.below(3) {
+                    0 => vec![lit_i(self.r.range(1, 2))],
+                    1 => vec![lit_i(self.r.range(1, 9)), lit_i(self.r.range(1, 9))],
+                    _ if ["min", "max", "sum", "mul"].contains(&name.as_str()) => vec![lit_i(3), lit_i(1)],
+                    _ => vec![],
                 };
-                Op::Exec { prog: Prog::one(call(&name, args)), ctx: CtxRef::Fresh(ctx) }
+                let e = call(&name, args);
+                // sometimes next to a call of a function that exists nowhere, in a branch that is not selected
+                let e = if self.r.chance(1, 5) { tern(lit_b(true), e, call("never_registered", vec![lit_i(2)])) } else { e };
+                Op::Exec { prog: Prog::one(e), ctx: CtxRef::Fresh(ctx) }
             }
             2 => {
                 let name = self.reg.prefix.keys().nth(self.r.usize(self.reg.prefix.len())).unwrap().clone();
